@@ -172,3 +172,31 @@ Proof.
   - apply rel12_canon. eapply rel12_trans; [apply I12mul_ok; apply r12 |].
     apply (I12inv_neg_ok (fermat_little p Hp) a Hz Hn).
 Qed.
+
+(* the predicates decide equality of ALL coefficients (on canonical operands: equality in the field) *)
+Lemma tower_predicates :
+  (forall a b : T2, I2equ a b = true <-> a = b) /\ (forall a b : T4, I4equ a b = true <-> a = b) /\
+  (forall a b : T12, I12equ a b = true <-> a = b) /\
+  (forall a : T2, I2is_zero a = true <-> a = I2zero) /\ (forall a : T2, I2is_one a = true <-> a = I2one) /\
+  (forall a : T4, I4is_zero a = true <-> a = I4zero).
+Proof.
+  assert (E2 : forall a b : T2, I2equ a b = true <-> a = b).
+  { intros [a0 a1] [b0 b1]. unfold I2equ; cbn [fst snd]. rewrite andb_true_iff, !Z.eqb_eq. split.
+    - intros [-> ->]; reflexivity.
+    - intros H; injection H; auto. }
+  assert (E4 : forall a b : T4, I4equ a b = true <-> a = b).
+  { intros [a0 a1] [b0 b1]. unfold I4equ; cbn [fst snd]. rewrite andb_true_iff, !E2. split.
+    - intros [-> ->]; reflexivity.
+    - intros H; injection H; auto. }
+  split; [exact E2 | split; [exact E4 | split; [| split; [| split]]]].
+  - intros [[a0 a1] a2] [[b0 b1] b2]. unfold I12equ, c0, c1, c2; cbn [fst snd]. rewrite !andb_true_iff, !E4. split.
+    + intros [[-> ->] ->]; reflexivity.
+    + intros H; injection H; auto.
+  - intros [a0 a1]. unfold I2is_zero, fis_zero, I2zero; cbn [fst snd]. rewrite andb_true_iff, !Z.eqb_eq. split.
+    + intros [-> ->]; reflexivity.
+    + intros H; injection H; auto.
+  - intros [a0 a1]. unfold I2is_one, I2one; cbn [fst snd]. rewrite andb_true_iff, !Z.eqb_eq. split.
+    + intros [-> ->]; reflexivity.
+    + intros H; injection H; auto.
+  - intros a. split; [apply I4is_zero_true | intros ->; reflexivity].
+Qed.
